@@ -41,6 +41,17 @@ func (m *markSerializer) Render(doc interface{}, w io.Writer, _ *native.RenderOp
 	return err
 }
 
+// envelopeDriver hands its input to the library's own reader (auto-detection and all)
+type envelopeDriver struct{}
+
+func (envelopeDriver) Unserialize(r io.Reader, _ *native.UnserializeOptions, _ interface{}) (*sbom.Document, error) {
+	b, err := io.ReadAll(r)
+	if err != nil {
+		return nil, err
+	}
+	return reader.New().ParseStream(bytes.NewReader(b))
+}
+
 type violations struct {
 	mu sync.Mutex
 	l  []any
@@ -215,6 +226,55 @@ func runStress(op M) any {
 			wg.Wait()
 			lookers.Wait()
 		}
+		// a driver that parses an inner document through the library (an envelope format), while
+		// unrelated formats are registered and removed: every call returns
+		{
+			envelope := formats.Format("verif/envelope")
+			reader.RegisterUnserializer(envelope, &envelopeDriver{})
+			var stop atomic.Bool
+			var churn sync.WaitGroup
+			churn.Add(1)
+			go func() {
+				defer churn.Done()
+				for i := 0; !stop.Load(); i++ {
+					f := formats.Format(fmt.Sprintf("verif/churn-%d", i%4))
+					reader.RegisterUnserializer(f, &markDriver{string(f)})
+					reader.UnregisterUnserializer(f)
+				}
+			}()
+			var users sync.WaitGroup
+			for w := 0; w < 8; w++ {
+				users.Add(1)
+				go func() {
+					defer users.Done()
+					for i := 0; i < iters/4+1; i++ {
+						guard(v, "envelope parse", func() {
+							d, err := reader.New().ParseStreamWithOptions(bytes.NewReader([]byte(autoCDX)), &reader.Options{Format: envelope})
+							if err != nil || d == nil || len(d.GetNodeList().GetNodes()) != 1 {
+								v.add("a driver that parses its payload through the library returns (%v nodes, %v)", len(d.GetNodeList().GetNodes()), err)
+							}
+						})
+					}
+					count(iters/4 + 1)
+				}()
+			}
+			finished := make(chan struct{})
+			go func() { users.Wait(); close(finished) }()
+			select {
+			case <-finished:
+			case <-time.After(60 * time.Second):
+				v.add("parses through a driver that calls the library again do not return while formats are being registered: the calls block one another")
+			}
+			stop.Store(true)
+			waited := make(chan struct{})
+			go func() { churn.Wait(); close(waited) }()
+			select {
+			case <-waited:
+				reader.UnregisterUnserializer(envelope)
+			case <-time.After(10 * time.Second):
+				v.add("a registration does not return while parses are in progress")
+			}
+		}
 		// a format that is registered before anybody looks and is only ever registered again (with
 		// one of two drivers), never removed: in every sequential order each lookup, parse and write
 		// finds one of the two
@@ -313,13 +373,14 @@ func runStress(op M) any {
 			}
 			return js(parseCanon(DocJ(d)))
 		}
-		want := make([]string, len(inputs))
-		for i, in := range inputs {
-			want[i] = skelOf(reader.New(), in)
-		}
+		// the documents meet the parsers for the first time while others are being parsed (whatever
+		// a parser keeps between calls is first written then); the sequential parses that say what
+		// each result has to be come afterwards
+		got := make([][]string, 16)
 		shared := reader.New()
 		for w := 0; w < 16; w++ {
 			wg.Add(1)
+			got[w] = make([]string, iters/2+1)
 			go func(w int) {
 				defer wg.Done()
 				for i := 0; i < iters/2+1; i++ {
@@ -329,15 +390,37 @@ func runStress(op M) any {
 						if (i+w)%2 == 0 {
 							r = reader.New()
 						}
-						if got := skelOf(r, inputs[k]); got != want[k] {
-							v.add("a parse running next to others differs from the parse of the same document alone (input %d)", k)
+						got[w][i] = skelOf(r, inputs[k])
+						// and a document nobody has seen before: its licence texts are this goroutine's own
+						lic := fmt.Sprintf("LicenseRef-own-%d-%d", w, i)
+						own := fmt.Sprintf(`{"bomFormat":"CycloneDX","specVersion":"1.5","version":1,"components":[{"bom-ref":"c","type":"library","name":"c","licenses":[{"license":{"id":%q}}]},{"bom-ref":"d","type":"library","name":"d","licenses":[{"expression":%q}]}]}`, lic, lic+" OR MIT")
+						d, err := r.ParseStream(bytes.NewReader([]byte(own)))
+						if err != nil || d == nil || len(d.GetNodeList().GetNodes()) != 2 {
+							v.add("a two-component document parsed next to others gives %v nodes, error %v", len(d.GetNodeList().GetNodes()), err)
+							return
+						}
+						for _, n := range d.NodeList.Nodes {
+							if len(n.Licenses) != 1 || !strings.HasPrefix(n.Licenses[0], lic) {
+								v.add("a component parsed next to others has licences %q, its document says %q", n.Licenses, lic)
+							}
 						}
 					})
 				}
-				count(iters/2 + 1)
+				count(2 * (iters/2 + 1))
 			}(w)
 		}
 		wg.Wait()
+		want := make([]string, len(inputs))
+		for i, in := range inputs {
+			want[i] = skelOf(reader.New(), in)
+		}
+		for w := range got {
+			for i, g := range got[w] {
+				if k := (i*5 + w) % len(inputs); g != "" && g != want[k] {
+					v.add("a parse running next to others differs from the parse of the same document alone (input %d)", k)
+				}
+			}
+		}
 	case "io":
 		// detection, parsing and writing of independent documents: each result equals its sequential result
 		type item struct {
@@ -432,7 +515,38 @@ func runStress(op M) any {
 		}
 		wg.Wait()
 	case "new":
-		// construction with options: every instance has the configuration its own options give
+		// construction with options: every instance has the configuration its own options give; the
+		// option values every construction has in common are created once, as a caller with a slice
+		// of common options does
+		commonR := reader.WithFormatOptions("common", "c")
+		commonW := writer.WithFormatOptions("common", "c")
+		for w := 0; w < 16; w++ {
+			wg.Add(1)
+			go func(w int) {
+				defer wg.Done()
+				for i := 0; i < iters; i++ {
+					guard(v, "New with common options", func() {
+						key, val := fmt.Sprintf("own%d", w), fmt.Sprintf("o%d-%d", w, i)
+						rd := reader.New(commonR, reader.WithFormatOptions(key, val))
+						wr := writer.New(commonW, writer.WithFormatOptions(key, val))
+						if rd.Options.GetFormatOptions("common") != "c" || rd.Options.GetFormatOptions(key) != val {
+							v.add("a reader built with a common and an own format option has %v / %v", rd.Options.GetFormatOptions("common"), rd.Options.GetFormatOptions(key))
+						}
+						if wr.Options.GetFormatOptions("common") != "c" || wr.Options.GetFormatOptions(key) != val {
+							v.add("a writer built with a common and an own format option has %v / %v", wr.Options.GetFormatOptions("common"), wr.Options.GetFormatOptions(key))
+						}
+						other := fmt.Sprintf("own%d", (w+1)%16)
+						if x := rd.Options.GetFormatOptions(other); x != nil {
+							v.add("a reader built by one goroutine holds the format option %q=%v of another goroutine's reader", other, x)
+						}
+						if x := wr.Options.GetFormatOptions(other); x != nil {
+							v.add("a writer built by one goroutine holds the format option %q=%v of another goroutine's writer", other, x)
+						}
+					})
+				}
+				count(2 * iters)
+			}(w)
+		}
 		for w := 0; w < 16; w++ {
 			wg.Add(1)
 			go func(w int) {
